@@ -5,6 +5,10 @@ Driver section for C02 (barrier alignment). Header: `M C02 <senders> <batchMaxSi
 Ops (one output line each):
   `send <sr> ev <keyhex> <p> <t>` | `send <sr> wm <ts>` | `send <sr> bar <id>`  → `passed` | `parked` | `busy`
   `send <sr> done` (SourceComplete) likewise
+  `sendb <sr> <item> <item> …` one `HandleEventBatch` call carrying several events (`ev:<key>:<p>:<t>`, `wm:<ts>`,
+              `bar:<id>`, `done`): answers for the first event; after each `go <sr>` the call goes on with its next
+              event (`… next:passed|parked`); an error (mismatch, failed ack, redeploy) ends the call
+  `cancel <sr>` → `cancelled` | `noop` (the context of the call in flight is cancelled)
   `go <sr>`   → `noop` | `ok <observations of the consumer's event function>`
   `gohold <sr>` → like `go`, but a barrier that completes the checkpoint stops the consumer at the start of its
                 flush: `held rel:<woken senders>`; while held `go <x>` → `queued` | `noop`, `resume` → `ok <…>`,
@@ -25,6 +29,8 @@ structure DSt where
   ids : List Nat := []
   held : Option Nat := none
   queue : List Nat := []
+  /-- per sender: the events of its `HandleEventBatch` call that have not been handed to `HandleEvent` yet -/
+  rest : List (Nat × List Item) := []
 
 def insSorted (k : Bytes) : List Bytes → List Bytes
   | [] => [k]
@@ -81,6 +87,42 @@ def doAct (st : DSt) (a : Act) : DSt × List String :=
   let r := step st.s a
   ({ st with s := r.1, ids := newIds st.ids r.2 }, showAll st.keys st.ids r.2)
 
+def parseItem (w : String) : Option Item :=
+  match w.splitOn ":" with
+  | ["ev", k, p, t] => some (.ev (hexOr k) (natOr p) (natOr t))
+  | ["wm", ts] => some (.wm (natOr ts))
+  | ["bar", id] => some (.bar (natOr id))
+  | ["done"] => some .done
+  | _ => none
+
+def restOf (st : DSt) (sr : Nat) : List Item := ((st.rest.find? (·.1 == sr)).map (·.2)).getD []
+
+def setRest (st : DSt) (sr : Nat) (l : List Item) : DSt :=
+  { st with rest := if l.isEmpty then st.rest.filter (·.1 != sr) else (sr, l) :: st.rest.filter (·.1 != sr) }
+
+def isErr : Obs → Bool
+  | .reject _ _ _ => true
+  | .ackfail _ => true
+  | _ => false
+
+def abortedBy : List Obs → List Nat
+  | [] => []
+  | .redeployed l :: r => l ++ abortedBy r
+  | _ :: r => abortedBy r
+
+def addKeys (keys : List Bytes) (its : List Item) : List Bytes :=
+  its.foldl (fun acc it => match it with | .ev k _ _ => insSorted k acc | _ => acc) keys
+
+/-- after the consumer finished sender `sr`'s event: the sender's call ends on an error, otherwise it hands its next
+event to `HandleEvent` (alignment decision for that event) -/
+def continueCall (st : DSt) (sr : Nat) (obs : List Obs) : DSt × String :=
+  if st.s.stopped || obs.any isErr then (setRest st sr [], "")
+  else match restOf st sr with
+    | [] => (st, "")
+    | it :: tl =>
+      let r := step st.s (.align sr it)
+      (setRest { st with s := r.1 } sr tl, " next:" ++ joinWith " " (showAll st.keys st.ids r.2))
+
 def isReleased : Obs → Bool
   | .released _ => true
   | _ => false
@@ -111,13 +153,33 @@ def step'' (st : DSt) : List String → DSt × String
   | ["failnext"] =>
     let (st, _) := doAct st .armFail
     (st, if st.s.stopped then "gone" else "armed")
+  | "sendb" :: sr :: ws =>
+    let its := ws.filterMap parseItem
+    if its.length != ws.length || its.isEmpty then (st, "bad-op") else
+    let st := { st with keys := addKeys st.keys its }
+    if natOr sr < st.s.k then
+      match its with
+      | it :: tl =>
+        let free := (st.s.slots (natOr sr)).isNone
+        let (st, o) := doAct st (.align (natOr sr) it)
+        (if free && !o.isEmpty then setRest st (natOr sr) tl else st, if o.isEmpty then "gone" else joinWith " " o)
+      | [] => (st, "bad-op")
+    else (st, "bad-op")
+  | ["cancel", sr] =>
+    let inFlight := natOr sr < st.s.k && (st.s.slots (natOr sr)).isSome && !st.s.stopped
+    let (st, _) := doAct st (.cancel (natOr sr))
+    (st, if inFlight then "cancelled" else "noop")
   | ["redeploy"] =>
-    let (st, o) := doAct st .redeploy
-    (st, if o.isEmpty then "gone" else joinWith " " o)
+    let r := step st.s .redeploy
+    let st := (abortedBy r.2).foldl (fun st x => setRest st x []) { st with s := r.1, ids := newIds st.ids r.2 }
+    (st, if r.2.isEmpty then "gone" else joinWith " " (showAll st.keys st.ids r.2))
   | ["go", sr] =>
     let r := step st.s (.go (natOr sr))
     if r.2.isEmpty then (st, "noop")
-    else ({ st with s := r.1, ids := newIds st.ids r.2 }, joinWith " " ("ok" :: showAll st.keys st.ids r.2))
+    else
+      let shown := joinWith " " ("ok" :: showAll st.keys st.ids r.2)
+      let (st, nx) := continueCall { st with s := r.1, ids := newIds st.ids r.2 } (natOr sr) r.2
+      (st, shown ++ nx)
   | ["tick"] =>
     let (st, o) := doAct st .tick
     (st, if o.isEmpty then "none" else joinWith " " o)
@@ -132,7 +194,7 @@ def step' (st : DSt) (ws : List String) : DSt × String :=
   let h : HSt := { s := st.s, held := st.held, queue := st.queue }
   match st.held, ws with
   | none, ["gohold", sr] =>
-    if completing st.s (natOr sr) then
+    if completing st.s (natOr sr) && (restOf st (natOr sr)).isEmpty then
       let r := hstep h (.hold (natOr sr))
       ({ st with held := r.1.held, queue := r.1.queue },
        s!"held rel:{joinWith "." ((parkedList st.s).map toString)}")
@@ -140,6 +202,7 @@ def step' (st : DSt) (ws : List String) : DSt × String :=
   | none, ["resume"] => (st, "noop")
   | none, _ => step'' st ws
   | some _, ["go", x] =>
+    if !(restOf st (natOr x)).isEmpty then (st, "noop") else
     let r := hstep h (.base (.go (natOr x)))
     ({ st with queue := r.1.queue }, if r.1.queue.length != st.queue.length then "queued" else "noop")
   | some _, ["resume"] =>
@@ -149,6 +212,10 @@ def step' (st : DSt) (ws : List String) : DSt × String :=
   | some _, ["send", sr, "ev", k, _, _] =>
     -- the key universe grows even though the call is refused (the harness does the same)
     ({ st with keys := insSorted (hexOr k) st.keys }, if natOr sr < st.s.k then "consumer-held" else "bad-op")
+  | some _, "sendb" :: sr :: ws =>
+    let its := ws.filterMap parseItem
+    if its.length != ws.length || its.isEmpty then (st, "bad-op") else
+    ({ st with keys := addKeys st.keys its }, if natOr sr < st.s.k then "consumer-held" else "bad-op")
   | some _, _ => (st, "consumer-held")
 
 def handle (lines : Array String) (i : Nat) (out : Array String) : Nat × Array String :=
